@@ -404,7 +404,13 @@ func checkProperty(id, tier string, only string) int {
 			}
 			defer solver.Close()
 			for i := range ch {
+				if verbose {
+					fmt.Fprintf(os.Stderr, "[start] %s\n", jobs[i].fn.Name())
+				}
 				results[i] = runHarness(l, pc, jobs[i].fn, solver, tier)
+				if verbose {
+					fmt.Fprintf(os.Stderr, "[done ] %s %.1fs paths=%v\n", jobs[i].fn.Name(), results[i].WallSecs, results[i].Paths)
+				}
 			}
 		}()
 	}
